@@ -15,3 +15,16 @@
     ensures
         ret == (server_stat.idle_for(idle_timeout) && client_stat.idle_for(idle_timeout)),
 //@ end
+
+// "default 600 s" (property text): an absent `timeouts` section, and an absent key inside it (serde's
+// `default = "default_timeout"` names this very function), give 600 s for both periods -- in particular never 0,
+// which would silently disable idle closing. The serde attributes that call these are not verified (serde trusted).
+//@ contract default_timeout
+    ensures
+        ret == 600,
+//@ end
+
+//@ contract Timeouts::default
+    ensures
+        ret.idle == 600, ret.udp == 600,
+//@ end
